@@ -107,11 +107,18 @@ pub(crate) fn unbond(
         }
 
         // record the unbonding
+        // several unbondings in the same block share the key, so accumulate instead of overwriting
+        let mut unbonding_asset = asset.clone();
+        if let Some(existing) =
+            UNBOND.may_load(deps.storage, (&info.sender, &denom, timestamp.nanos()))?
+        {
+            unbonding_asset.amount = unbonding_asset.amount.checked_add(existing.asset.amount)?;
+        }
         UNBOND.save(
             deps.storage,
             (&info.sender, &denom, timestamp.nanos()),
             &Bond {
-                asset: asset.clone(),
+                asset: unbonding_asset,
                 weight: Uint128::zero(),
                 timestamp,
             },
